@@ -1296,8 +1296,11 @@ void readin (void)
 	comment("A lexical scanner generated by flex\n");
 
 	/* Dump the %top code. */
-	if( top_buf.elts)
+	if( top_buf.elts) {
 		outn((char*) top_buf.elts);
+		/* what follows is generated code again */
+		line_directive_out (stdout, NULL, linenum);
+	}
 
 	/* Place a bogus line directive, it will be fixed in the filter. */
 	line_directive_out(NULL, NULL, 0);
